@@ -511,7 +511,7 @@ pub fn run(args: &Args) {
 
     // ---- random part
     let mut rng = Rng::derive(args.seed, 0xC29_0000 + args.shard as u64);
-    let n_cfg = args.budget(240, 24_000);
+    let n_cfg = args.budget(2_000, 60_000);
     for _ in 0..n_cfg {
         let tok = if rng.bool() { "wordpiece" } else { "bpe" };
         let specials = *rng.choose(&["none", "cls+sep", "cls+sep", "cls", "sep"]);
